@@ -1092,6 +1092,11 @@ func coCanary() string {
 }
 
 func runC06M(run *Run) {
+	if !replayMode.on || wholeRun {
+		for _, line := range c06HostStates() {
+			run.Failures = append(run.Failures, Failure{CaseIdx: -9070, Kind: "CRASH", Line: line, Reply: line, Lines: []string{line}})
+		}
+	}
 	nCases := 2500
 	if run.Tier == "thorough" {
 		nCases = 40000
